@@ -540,7 +540,8 @@ def main_c14(tier, seed):
 from atsim.potentials.config import FilteredConfigParser      # noqa: E402
 from lib import formats                                        # noqa: E402
 
-SPL = {1: "Al", 2: "Cu", 3: "Fe", 9: "Zz"}
+# one label is a prefix of another (H / He): labels are compared as wholes, never as substrings
+SPL = {1: "H", 2: "He", 3: "Fe", 9: "Zz"}
 V_TARGETS = {False: ["LAMMPS", "GULP", "DL_POLY", "setfl", "DL_POLY_EAM", "excel_eam", "excel"], True: ["setfl_fs", "DL_POLY_EAM_fs", "excel_eam_fs"]}
 
 
@@ -1223,7 +1224,7 @@ def main_c20(tier, seed):
                 ops = tlc.read_ndjson(os.path.join(res.outdir, "cases.ndjson"))
         finally:
             tlc.cleanup(res)
-        for cfg in ("Dups_code.cfg", "Dups_late.cfg", "Dups_addraw.cfg"):
+        for cfg in ("Dups_code.cfg", "Dups_late.cfg", "Dups_addraw.cfg", "Dups_addmerged.cfg"):
             r2 = tlc.run("Dups", cfg, timeout=600)
             run.notes["unrepaired_model_violates_" + cfg[:-4]] = r2.violated
             if r2.violated != "NoDuplicateSurvives":
@@ -1255,13 +1256,29 @@ def main_c20(tier, seed):
                         for orig_k, spelling in dup_variants(o["op"], fam):
                             for position in (("adjacent", "end", "before") if o["route"] == "file" else ("added",)):
                                 text = dup_render(fam, o["op"], spelling, position, orig_k) if o["route"] == "file" else base_text
+                                first = None
+                                if o["route"] == "add2":
+                                    # neither definition is in the file: take the original entry out and give it as an addition too
+                                    k0 = orig_k if orig_k is not None else orig
+                                    v0 = [v for n_, items in dup_base(fam) if n_ == sec for k_, v in items if k_ == k0][0]
+                                    line = "%s %s %s\n" % (k0, "=" if sec == "Potential-Form" else ":", v0)
+                                    if line not in text:
+                                        run.machinery("add2 rendering: %r not found in the base file" % line)
+                                        continue
+                                    text = text.replace(line, "", 1)
+                                    first = (sec, k0, v0)
                                 for route in ("api", "cli"):
                                     if o["route"] == "file":
                                         got = tabulate_text(text) if route == "api" else tabulate_cli(text, [], d)
+                                    elif sec.startswith("Table-Form"):
+                                        # the addition creates the section: one 'xy' item makes a whole table form
+                                        xy = "0.0 0.0 1.0 2.0 2.0 8.0 3.0 18.0 4.0 32.0"
+                                        got = tabulate_api_raw(text, [ConfigParserOverrideTuple(spelling, "xy", xy)]) if route == "api" else \
+                                            tabulate_cli(text, ["-a", "%s:xy=%s" % (spelling, xy)], d)
                                     elif route == "api":
-                                        got = tabulate_api_raw(text, [ConfigParserOverrideTuple(sec, spelling, val2)])
+                                        got = tabulate_api_raw(text, ([ConfigParserOverrideTuple(*first)] if first else []) + [ConfigParserOverrideTuple(sec, spelling, val2)])
                                     else:
-                                        got = tabulate_cli(text, ["-a", "%s:%s=%s" % (sec, spelling, val2)], d)
+                                        got = tabulate_cli(text, (["-a", "%s:%s=%s" % first] if first else []) + ["-a", "%s:%s=%s" % (sec, spelling, val2)], d)
                                     run.evaluations += 1
                                     run.replayed += 1
                                     run.distinct(json.dumps([o["op"], o["route"], fam, orig_k, spelling, position]))
@@ -1286,7 +1303,7 @@ def main_c20(tier, seed):
                                           "[duplicate] file with a key / section defined twice is not refused (%s): %s" % (got[0], text[:300]), dict(case=c, file=text))
             finally:
                 shutil.rmtree(d, ignore_errors=True)
-            run.rule = "cases = 23 duplication operators x {written in the file, given by --add-item / additional=} (TLC) x families x spellings of the second definition x 3 positions x {API, CLI}; non-trivial = every case (each holds a genuine second definition with a different value); distinct by (operator, family, spelling, position)"
+            run.rule = "cases = 23 duplication operators x {written in the file, given by --add-item / additional=, both definitions given by --add-item} (TLC) x families x spellings of the second definition x 3 positions x {API, CLI}; non-trivial = every case (each holds a genuine second definition with a different value); distinct by (operator, family, spelling, position)"
     except tlc.TLCError as e:
         run.machinery(str(e))
     return run.finish()
